@@ -324,11 +324,10 @@ theorem Bnd_bdrop {s : St} {A W : Nat} (h : Bnd s A W) : Bnd (bdrop s).1 A W := 
 theorem Bnd_backup {s : St} {A W : Nat} (h : Bnd s A W) (dest : String)
     (hne : ∀ db, s.db = some db → dest ≠ db.dir) : Bnd (backup s dest).1 A W := by
   obtain ⟨db, g, hs, hf, hA, hsg, hW, hbok⟩ := h
-  obtain ⟨X, e⟩ := backup_eq hs dest
+  obtain ⟨W', e, hwd, _⟩ := backup_eq hs dest
   rw [e]
-  have hw : (s.world.set dest X).get db.dir = s.world.get db.dir :=
-    MergeP.get_set_ne _ _ _ _ (fun e => hne db hs e.symm)
-  exact ⟨db, g, hs, ⟨by show DirOK (s.world.set dest X) db.dir g; unfold DirOK; rw [hw]; exact hf.dir, hf.asc,
+  have hw : W'.get db.dir = s.world.get db.dir := hwd (hne db hs)
+  exact ⟨db, g, hs, ⟨by show DirOK W' db.dir g; unfold DirOK; rw [hw]; exact hf.dir, hf.asc,
     hf.active, hf.recs⟩, hA, hsg, hW, hbok⟩
 
 /-! ## the staging calls -/
